@@ -332,7 +332,7 @@ theorem stepOKC_read (w : World) (hw : WFW w) (h : Nat) (n : Int) : StepOKC w (.
         have hstep : stepC w (.read h n) =
             let len : Int := if n = 0 ∨ n + a.posn > l then (l : Int) - a.posn else n
             if len < 0 then (w, .data 0 [])
-            else match diskRead (w.file a.file).disk (o + a.posn) len.toNat with
+            else match (w.file a.file).hpRead (o + a.posn) len.toNat with
               | none => (w, .fail)
               | some bs => (w.setAcc h { a with posn := a.posn + len.toNat }, .data len bs) := by
           simp only [stepC, hreadCore, ha]
@@ -340,7 +340,7 @@ theorem stepOKC_read (w : World) (hw : WFW w) (h : Nat) (n : Int) : StepOKC w (.
           simp only [hdl, hdo]
           split
           · rfl
-          · cases diskRead (w.file a.file).disk (o + a.posn) (if n = 0 ∨ n + (a.posn : Int) > l then (l : Int) - a.posn else n).toNat <;> rfl
+          · cases (w.file a.file).hpRead (o + a.posn) (if n = 0 ∨ n + (a.posn : Int) > l then (l : Int) - a.posn else n).toNat <;> rfl
         by_cases hlen : (if n = 0 ∨ n + a.posn > l then (l : Int) - a.posn else n) < 0
         · -- positioned beyond the end: 0 bytes (21b8ab5)
           unfold StepOKC
@@ -375,7 +375,7 @@ theorem stepOKC_read (w : World) (hw : WFW w) (h : Nat) (n : Int) : StepOKC w (.
               have : ¬ (n.toNat = 0 ∨ a.posn + n.toNat > l) := by omega
               simp only [hge, this, if_false]
               exact ⟨trivial, by omega⟩
-          cases hdr : diskRead (w.file a.file).disk (o + a.posn) (readCount l a.posn n.toNat) with
+          cases hdr : (w.file a.file).hpRead (o + a.posn) (readCount l a.posn n.toNat) with
           | none => exact stepOKC_fail_same w hw _ (by rw [hstep]; simp only [hlen', if_false, hrc.1, hdr])
           | some bs =>
             unfold StepOKC
